@@ -386,6 +386,8 @@ def strip_unif(sn):
 
 def feature(rooted, sa, sb):
     """distinguishing feature of the witness, for the signature"""
+    if not rooted and nleaves(sa) == 2:
+        return "two-leaf-tree"   # an unrooted two-leaf tree has no drawing without a degree-two seed
     basal = (not rooted) and (len(strip_unif(sa)[3]) == 2 or len(strip_unif(sb)[3]) == 2)
     if has_unif(sa) or has_unif(sb):
         return "unifurcation-and-basal-bifurcation" if basal else "unifurcation"
@@ -568,9 +570,48 @@ def eval_pair_both(ctx, rooted, sa, sb, fns, cfg="exact"):
             continue
         exps = expected(kind, sa, sb, isr)
         if not value_ok(kind, v1, exps, False):
-            ctx.violation("%s|value|missing-length|%s|%s" % (NAMES[fn], rootname(rooted), feature(isr, sa, sb)),
+            feat = feature(isr, sa, sb)
+            ctx.violation(("%s|value|%s|%s" if feat == "two-leaf-tree" else "%s|value|missing-length|%s|%s") % (
+                              NAMES[fn], rootname(rooted), feat),
                           "%s(A,B)=%r in both orders, definition with missing length read as 0 gives %r; A=%s B=%s" % (
                               NAMES[fn], v1, exps[0], ref.to_newick(sa), ref.to_newick(sb)), case)
+
+
+def eval_reorder(ctx, rooted, sa, sb, fns, cfg="exact"):
+    """missing-length domain, no reading of None needed: reversing the child order of the
+    first tree must change neither the value nor whether the call is refused (library
+    value against library value, fresh objects)."""
+    n = nleaves(sa)
+    env = Env.get(n, cfg)
+    allc = frozenset(env.labels)
+    isr = bool(rooted)
+    sr = rev(sa)
+    if sr == sa:
+        return
+    ctx.case(("reorder", rooted, sa, sb, cfg, fns), nontrivial=n >= 3, n=2 * len(fns))
+    for fn in fns:
+        res = []
+        for x, y in ((sa, sb), (sr, sb), (sb, sa), (sb, sr)):
+            tx, ty = fresh(env, rooted, x, y, "fresh")
+            try:
+                res.append(("ok", call(fn, tx, ty, env, isr, allc)))
+            except Exception as e:
+                res.append(("exc", e))
+        case = {"kind": "reorder", "rooted": rooted, "a": sa, "b": sb, "fns": [fn], "ns": cfg}
+        feat = feature(isr, sa, sb)
+        if feat == "two-leaf-tree":
+            sig = "%s|value|%s|%s" % (NAMES[fn], rootname(rooted), feat)
+        else:
+            sig = "%s|child-order-dependent|missing-length|%s|%s" % (NAMES[fn], rootname(rooted), feat)
+        for (s1, v1), (s2, v2), pos in ((res[0], res[1], "first"), (res[2], res[3], "second")):
+            if (s1 == "ok") != (s2 == "ok"):
+                ctx.violation(sig,
+                              "%s with A as %s argument: %s, with A's child order reversed: %s; A=%s B=%s [%s]" % (
+                                  NAMES[fn], pos, (s1, v1), (s2, v2), ref.to_newick(sa), ref.to_newick(sb), rootname(rooted)), case)
+            elif s1 == "ok" and not ref.feq(v1, v2):
+                ctx.violation(sig,
+                              "%s with A as %s argument = %r, with A's child order reversed (%s) = %r; A=%s B=%s [%s]" % (
+                                  NAMES[fn], pos, v1, ref.to_newick(sr), v2, ref.to_newick(sa), ref.to_newick(sb), rootname(rooted)), case)
 
 
 # ---------------------------------------------------------------------------
@@ -930,6 +971,7 @@ def run_nolen(chunk, ctx):
                     continue
                 seen.add(b)
                 eval_pair_both(ctx, rooted, a, b, WEIGHTED + (("sd",) if tag == "all" else ()))
+                eval_reorder(ctx, rooted, a, b, WEIGHTED)
                 ctx.count("missing_length_pairs")
         ctx.sample({"layer": "missing-lengths", "rooting": rootname(rooted), "tree": ref.to_newick(mv[0][1]),
                     "variants": len(mv)}, 1)
@@ -1148,6 +1190,8 @@ def replay(case, ctx):
             eval_pair_both(ctx, rooted, sa, sb, fns, cfg=case.get("ns", "exact"))
         else:
             eval_pair(ctx, rooted, sa, sb, fns, cfg=case.get("ns", "exact"), prep=case.get("prep", "fresh"), exact=False)
+    elif k == "reorder":
+        eval_reorder(ctx, rooted, tup(case["a"]), tup(case["b"]), tuple(case["fns"]), cfg=case.get("ns", "exact"))
     elif k == "hist":
         eval_history(ctx, rooted, tup(case["t"]), tup(case["o"]), case["op1"], case["edit"], tuple(case["fns"]),
                      tuple(case["orders"]))
